@@ -171,4 +171,43 @@ MUTANTS = [
     Mutant("repair-whitespace", TREE, "illegal_chars = [\",\",\":\",\";\",\"(\",\")\"]", "illegal_chars = [\",\",\":\",\";\",\"(\",\")\",\" \",\"\\t\",\"\\n\"]",
            "R1.whitespace-refused", kind="repair"),
     Mutant("leaf-range-upper", TREE, "            if index >= leaf_count or index < 0:", "            if index < 0:", "R2.leaf-index-range"),
+    # ---- one seeded fault per rule that had none --------------------------------------
+    Mutant("leaf-distance-before-label", TREE, "                    return f\"{label}:{self._distance}\"\n", "                    return f\"{self._distance}:{label}\"\n", "R1.distance-syntax"),
+    Mutant("default-labels-one-based", TREE, "                label = str(self._index)\n", "                label = str(self._index + 1)\n", "R1.label-index"),
+    Mutant("parsed-index-shifted", TREE, "            index = int(label) if labels is None else labels.index(label)\n",
+           "            index = int(label) - 1 if labels is None else labels.index(label)\n", "R1.label-index"),
+    Mutant("writer-no-semicolon", TREE, "            labels, include_distance, round_distance\n        ) + \";\"\n", "            labels, include_distance, round_distance\n        )\n",
+           "R1.terminator"),
+    Mutant("parser-keeps-semicolon", TREE, "        if newick[-1] == \";\":\n            newick = newick[:-1]\n", "", "R1.terminator"),
+    # the tree has this defect (known finding), so a break cannot add a finding: the seeded edit is the repair
+    Mutant("repair-duplicate-leaf-index", TREE, "            self._leaves[index] = leaves_unsorted[i]\n",
+           "            if self._leaves[index] is not None:\n                raise TreeError(\"The tree's indices are not unique\")\n            self._leaves[index] = leaves_unsorted[i]\n",
+           "R2.leaf-index-unique", kind="repair"),
+    Mutant("children-distances-length-unchecked", TREE, "            if len(children) != len(distances):\n                raise ValueError(\n                    \"The number of children must equal the number of distances\"\n                )\n",
+           "", "R2.node-checks"),
+    Mutant("second-parent-accepted", TREE, "        if self._parent is not None or self._is_root:\n            raise TreeError(\"Node already has a parent\")\n", "", "R2.node-checks"),
+    Mutant("tree-copy-shares-root", TREE, "        return Tree(self._root.copy())\n", "        return Tree(self._root)\n", "R3.copy-fresh", qualname="Tree.__copy_create__"),
+    Mutant("node-copy-shallow", TREE, "            children_clones = [child.copy() for child in self._children]\n", "            children_clones = [child for child in self._children]\n",
+           "R3.copy-fresh", qualname="TreeNode.copy"),
+    Mutant("distance-stops-below-lca", TREE, "        current_node = node\n        while current_node is not lca:\n", "        current_node = node\n        while current_node._parent is not lca:\n",
+           "R3.distance-is-path-sum"),
+    Mutant("distance-one-path-only", TREE, "        current_node = node\n        while current_node is not lca:\n            if topological:\n                distance += 1\n            else:\n                distance += current_node._distance\n            current_node = current_node._parent\n",
+           "", "R3.distance-is-path-sum"),
+    Mutant("upgma-negative-accepted", UPGMA, "    if (distances < 0).any():\n        raise ValueError(\"Distances must be positive\")\n", "", "R4.input-checks", qualname="upgma"),
+    Mutant("nj-nan-accepted", NJ, "    if np.isnan(distances).any():\n        raise ValueError(\"Distance matrix contains NaN values\")\n", "", "R4.input-checks", qualname="neighbor_joining"),
+    Mutant("upgma-search-includes-clustered", UPGMA, "                if is_clustered_v[j]:\n                    continue\n", "", "R4.min-search", qualname="upgma"),
+    Mutant("upgma-search-includes-diagonal", UPGMA, "            for j in range(i):\n", "            for j in range(i+1):\n", "R4.min-search", qualname="upgma"),
+    Mutant("nj-search-maximum", NJ, "                if dist < dist_min:\n", "                if dist > dist_min:\n", "R4.min-search", qualname="neighbor_joining"),
+    Mutant("nj-root-drops-third-node", NJ, "                (nodes[i_min], nodes[j_min], nodes[k]),\n                (node_dist_i, node_dist_j, node_dist_k)\n",
+           "                (nodes[i_min], nodes[j_min]),\n                (node_dist_i, node_dist_j)\n", "R4.nj-three-way-join"),
+    Mutant("nj-binary-join-at-three", NJ, "        if n_rem_nodes > 3:\n", "        if n_rem_nodes > 2:\n", "R4.nj-three-way-join"),
+    Mutant("upgma-retires-merged-node", UPGMA, "        nodes[j_min] = None\n        is_clustered_v[j_min] = True\n", "        nodes[j_min] = None\n        is_clustered_v[i_min] = True\n",
+           "R4.retire-merged", qualname="upgma"),
+    Mutant("nj-clears-merged-slot", NJ, "            nodes[j_min] = None\n", "            nodes[i_min] = None\n", "R4.retire-merged", qualname="neighbor_joining"),
+    Mutant("upgma-wrong-weight", UPGMA, "                        + distances_v[j_min,k] * cluster_size_v[j_min]\n", "                        + distances_v[j_min,k] * cluster_size_v[i_min]\n",
+           "R4.upgma-average"),
+    Mutant("upgma-unweighted-mean", UPGMA, "                          distances_v[i_min,k] * cluster_size_v[i_min]\n                        + distances_v[j_min,k] * cluster_size_v[j_min]\n                    ) / (cluster_size_v[i_min] + cluster_size_v[j_min])\n",
+           "                          distances_v[i_min,k]\n                        + distances_v[j_min,k]\n                    ) / 2\n", "R4.upgma-average"),
+    Mutant("upgma-height-not-halved", UPGMA, "        height = dist_min/2\n", "        height = dist_min\n", "R4.upgma-heights"),
+    Mutant("upgma-height-not-stored", UPGMA, "        node_heights[i_min] = height\n", "", "R4.upgma-heights"),
 ]
